@@ -12,11 +12,12 @@
     before any byte moves;
   * `set_ip_failure`: wrong address family / not an address record: error, object unchanged;
   * `rename_failure`: a rename that overflows a name (or whose result is refused) returns the object
-    unchanged.
+    unchanged;
+  * `set_name_too_large`: a name that would push the packet past 65535 bytes is refused; only the
+    question cache is emptied.
   An unchanged object trivially still satisfies C08.  Not covered by a theorem (script correspondence
   only): malformed record text at the object API (the text is refused by synthesis — C13
-  `excluded_is_error` — before insertion is attempted), `set_raw_name` refused for size (returns the
-  object with its question cache emptied), failures of insertion into a still-compressed object
+  `excluded_is_error` — before insertion is attempted), failures of insertion into a still-compressed object
   (decompression happens first; the bytes change, the decoded message does not).
 -/
 import DnsModel.Lemmas.InsertRec
@@ -185,5 +186,18 @@ theorem rename_failure (pp pp' : PP) (target source : Bytes) (sfx : Bool) (e : E
       rw [hp] at h
       simp only at h
       split at h <;> simp at h
+
+/-- **`set_raw_name` refused for size** (the packet would exceed 65535 bytes): PacketTooLarge; bytes,
+section starts, EDNS summary and cursor untouched, the question cache emptied (so the object is still
+consistent and decodes to the same message) -/
+theorem set_name_too_large {pp : PP} (P : PlainObj pp) (sec : Section) (hs : sec.isRec = true) {ps1 ps2 : List Bytes} {rc : Bytes}
+    (hsplit : P.lst sec = ps1 ++ rc :: ps2) (c : Cursor) {ne : Nat} {ob oa : Bool}
+    (hr : RRAtPos pp.packet sec ⟨P.start sec + ps1.flatten.length, ne, P.start sec + ps1.flatten.length + rc.length⟩ ob oa)
+    (hoff : c.offset = some (P.start sec + ps1.flatten.length)) (hne : c.nameEnd = ne)
+    (owner' : List (List UInt8)) (hgo' : GoodLabels owner')
+    (hgrow : ne - (P.start sec + ps1.flatten.length) < labSum owner' + 1)
+    (hbig : pp.packet.length + (labSum owner' + 1) - (ne - (P.start sec + ps1.flatten.length)) > 65535) :
+    setRawName pp c (encLabels owner' ++ [0]) = .ok { pp := { pp with cached := none }, cur := c, result := some .packetTooLarge } :=
+  P.set_name_too_large sec hs hsplit c hr hoff hne owner' hgo' hgrow hbig
 
 end Dns.C10
